@@ -119,7 +119,13 @@ func (s *ftpService) Handle(ctx context.Context, conn net.Conn) error {
 	// the session ends so that the pump below ends with it
 	recv := make(chan string)
 
-	ftpConn := s.server.newConn(conn, s.driver, recv)
+	// every session has its own working directory
+	driver := s.driver
+	if fd, ok := driver.(*Fs); ok {
+		driver = fd.forSession()
+	}
+
+	ftpConn := s.server.newConn(conn, driver, recv)
 
 	go func() {
 		for msg := range recv {
